@@ -504,7 +504,9 @@ class AbstractJob:                                      # pylint: disable=R0902
                 if requirement.jobs:
                     self.requires(requirement.jobs[-1], remove=remove)
             elif isinstance(requirement, (tuple, list, set)):
-                for req in requirement:
+                # iterate over a copy: the collection may be our own
+                # 'required' set, that a removal changes under our feet
+                for req in list(requirement):
                     self.requires(req, remove=remove)
             # not quite sure about what do to here in fact
             # assuming it's some other sort of iterable, e.g. a generator
